@@ -8,6 +8,8 @@ from . import props as M
 from .sim import Sim
 from .values import *  # noqa: F401,F403
 from .world import Script
+from .mirparse import split_top
+import re
 
 
 def pick(ex, options, label):
@@ -1184,11 +1186,33 @@ def has_path_fn(prog, ex, P, tier):
     m = w.HMap()
     m.sym = []
     pres, tgt = {}, {}
+    # the value type of the graph is read from has_path's signature in the current tree:
+    # HashMap<u64, Identity> today; a tuple or struct that *contains* the target Identity as its
+    # first field is wrapped accordingly; anything else is outside this obligation
+    hp = [b for b in prog.bodies.values() if b.name.split("::")[-1] == "has_path" and b.arg_types]
+    vty = ""
+    if hp:
+        mm = re.search(r"HashMap<u64,\s*(.*?)>\s*$", hp[0].arg_types[0].strip().replace("std::collections::", ""))
+        vty = mm.group(1).strip() if mm else ""
+    if not vty and hp:
+        # a type alias: look at the static
+        st_ = [b for b in prog.bodies.values() if b.header.startswith("static ") and "WAIT_FOR" in b.name]
+        mm = re.search(r"HashMap<u64,\s*(.*?)>>>", st_[0].header.replace("std::collections::", "")) if st_ else None
+        vty = mm.group(1).strip() if mm else ""
+
+    def mkval(ident):
+        t = vty.replace("crate::", "")
+        if t in ("Identity", ""):
+            return ident
+        if t.startswith("(Identity,") or t.startswith("(Identity ,"):
+            rest = split_top(t[1:-1])[1:]
+            return Agg("tuple", "", [ident] + [IntV(ex.sym("aux_%s_%d" % (ident.fields[0].v, j), 64), 64) for j in range(len(rest))])
+        raise Unsupported("wait-for graph value type %r (has_path_fn builds Identity / (Identity, ..) values)" % vty)
     for k in range(1, N + 1):
         pres[k] = z3.Bool("present_%d" % k)
         tgt[k] = ex.sym("target_%d" % k, 64)
         ex.assume(z3.And(z3.UGE(tgt[k], 1), z3.ULE(tgt[k], N + 1)))      # N+1 = an id that waits for nobody
-        m.sym.append((k, pres[k], Agg("struct", "Identity", [IntV(tgt[k], 64), "T"])))
+        m.sym.append((k, pres[k], mkval(Agg("struct", "Identity", [IntV(tgt[k], 64), "T"]))))
     frm = ex.sym("from", 64)
     to = ex.sym("to", 64)
     ex.assume(z3.And(z3.UGE(frm, 1), z3.ULE(frm, N + 1), z3.UGE(to, 1), z3.ULE(to, N + 1)))
